@@ -9,7 +9,7 @@ import ast
 
 from ..core import AnchorError, atoms, call_name, decorators, norm, short, own_nodes, kwarg, FUNC_TYPES
 from ..cfg import cfg_of
-from ..lib import calls_in, stmts_in, gate, must_pass, node_has, params, raised_name, xnorm, decision_table
+from ..lib import calls_in, stmts_in, gate, must_pass, node_has, params, raised_name, xnorm, decision_table, dominating_facts, atom_key
 from .. import grammar as G
 from .c01 import supported_versions
 
@@ -58,7 +58,8 @@ def rule_a(repo, chk, all_versions=False):
     use = versions if all_versions else versions[:1]
     f = repo.find(REF, 'inline')
     # which table does inline consult for the parent type?
-    tests = [x for x in own_nodes(f) if isinstance(x, ast.Compare) and xnorm(x.left, f) == 'tree_name.parent.type' and isinstance(x.ops[0], ast.In)]
+    tests = [x for x in own_nodes(f) if isinstance(x, ast.Compare) and xnorm(x.left, f) in ('tree_name.parent.type', 'use_site.type') and isinstance(x.ops[0], ast.In)]
+    site = 'use_site' if tests and xnorm(tests[0].left, f) == 'use_site.type' else 'tree_name.parent'
     chk.ob('C06.a', len(tests) == 1 and isinstance(tests[0].comparators[0], ast.Name), f, 'inline tests the use site\'s parent type against one table')
     if not tests or not isinstance(tests[0].comparators[0], ast.Name):
         return
@@ -91,7 +92,7 @@ def rule_a(repo, chk, all_versions=False):
                 break
         disj = cond.values if isinstance(cond, ast.BoolOp) and isinstance(cond.op, ast.Or) else [cond]
         texts = [xnorm(d, f) for d in disj]
-        ok = any(t == 'tree_name.parent.type in %s' % tname for t in texts)
+        ok = any(t == '%s.type in %s' % (site, tname) for t in texts)
         chk.ob('C06.a', ok, s, 'the parent-type test is a top-level disjunct of the wrapping condition (it is not weakened by a conjunct about the inlined expression)', str(texts))
         ok = any(t == "rhs.type == 'testlist_star_expr'" for t in texts)
         chk.ob('C06.a', ok, s, 'a tuple right-hand side is always wrapped')
@@ -109,14 +110,29 @@ def rule_a(repo, chk, all_versions=False):
             if n.kind == 'stmt' and 'file_to_node_changes.setdefault' in norm(n.ast):
                 return 'plain'
             return None
-        bad = decision_table(f, heads[0], [('tuple', "rhs.type == 'testlist_star_expr'"), ('in_table', 'tree_name.parent.type in %s' % tname),
-                                           ('trailer', "tree_name.parent.type == 'trailer'"), ('followed', 'tree_name.parent.get_next_sibling() is not None')],
+        bad = decision_table(f, heads[0], [('tuple', "rhs.type == 'testlist_star_expr'"), ('in_table', '%s.type in %s' % (site, tname)),
+                                           ('trailer', "tree_name.parent.type == 'trailer'"), ('followed', 'tree_name.parent.get_next_sibling() is not None')]
+                             + ([('us_trailer', "use_site.type == 'trailer'"), ('us_dot', "use_site.children[0] == '.'"),
+                                 ('us_last', 'use_site.get_next_sibling() is None')] if site == 'use_site' else []),     # which node is asked (decided below) does not change the table
                              label, lambda fc: 'wrap' if fc['tuple'] or fc['in_table'] or (fc['trailer'] and fc['followed']) else 'plain')
         chk.ob('C06.a', not bad, heads[0].ast, 'decision table of the parenthesisation (4 facts): wrapped exactly when the value is a bare tuple, the use site\'s '
                'parent is in the table, or the name is a trailer followed by a sibling - nothing about the inlined value can switch it off',
                '; '.join(bad[:3]), key='inline-wrap-table')
     else:
         chk.ob('C06.a', False, f, 'decision table of the parenthesisation: one loop over `references` and one wrapping statement', key='inline-wrap-table')
+    # WHICH node is the use site: a name that is the last attribute of a chain (`a.x` with nothing behind it) is replaced together with the
+    # chain, so the table must be asked about the parent of the chain (`a.x * 2` sits in a term), not about the trailer
+    lifts = [s_ for s_ in stmts_in(f, ast.Assign) if norm(s_.targets[0]) == 'use_site' and norm(s_.value) == 'use_site.parent.parent']
+    starts = [s_ for s_ in stmts_in(f, ast.Assign) if norm(s_.targets[0]) == 'use_site' and norm(s_.value) == 'tree_name.parent']
+    ok = len(lifts) == 1 and len(starts) == 1 and site == 'use_site'
+    chk.ob('C06.a', ok, f, 'the use site of a name that ends an attribute chain is the parent of the whole chain (use_site = use_site.parent.parent)',
+           'inline judges `a.x` by the trailer of x: `self.x = 1 + 2; self.x * 2` becomes `1 + 2 * 2`', key='inline-use-site-of-attribute')
+    for l_ in lifts:
+        facts = {atom_key(e, None)[0]: (atom_key(e, None)[1] == pol) for e, pol in dominating_facts(f, l_) if 'use_site' in norm(e)}
+        want_f = {atom_key(ast.parse(t, mode='eval').body, None)[0]: True for t in ("use_site.type == 'trailer'", "use_site.children[0] == '.'")}
+        k_none, p_none = atom_key(ast.parse('use_site.get_next_sibling() is None', mode='eval').body, None)
+        ok = all(facts.get(k) is True for k in want_f) and facts.get(k_none) is True and set(facts) <= set(want_f) | {k_none}
+        chk.ob('C06.a', ok, l_, 'the lift happens exactly for a `.name` trailer without a following sibling', str(sorted(facts.items())))
     # everything else about the replacement text
     rc = [s for s in stmts_in(f, ast.Assign) if norm(s.targets[0]) == 'replace_code']
     chk.ob('C06.a', len(rc) == 1 and norm(rc[0].value) == 'rhs.get_code(include_prefix=False)', f, 'the replacement is the right-hand side\'s own code')
